@@ -847,6 +847,36 @@ func c02R7(p *core.Prog, r *core.Report) {
 				arg := core.CallArg(oc, 1)
 				ap := accessPath(arg)
 				label := lab.next("descriptor digest")
+				// the bytes may be chosen first (`hashed := c.rawBody; if signed { hashed = signed.Canonical }`)
+				if _, isPhi := arg.(*ssa.Phi); isPhi {
+					var leaves func(v ssa.Value, d int) []ssa.Value
+					leaves = func(v ssa.Value, d int) []ssa.Value {
+						if ph, ok := v.(*ssa.Phi); ok && d < 4 {
+							var out []ssa.Value
+							for _, e := range ph.Edges {
+								out = append(out, leaves(e, d+1)...)
+							}
+							return out
+						}
+						return []ssa.Value{v}
+					}
+					raw, other := false, ""
+					for _, l := range leaves(arg, 0) {
+						lp := accessPath(l)
+						switch {
+						case strings.HasSuffix(lp, ".rawBody"):
+							raw = true
+						case strings.HasSuffix(lp, ".Canonical"):
+						default:
+							other = quoteOr(lp, "a value that is not the raw body field")
+						}
+					}
+					if other == "" && raw {
+						ap = ".rawBody"
+					} else if other == "" {
+						ap = ".Canonical"
+					}
+				}
 				switch {
 				case strings.HasSuffix(ap, ".Canonical"):
 					r.Held(rule, fname, label+" (signed schema1)", p.Pos(fs.Store.Pos()), "listed exception: the digest of a signed schema1 manifest is that of its canonical payload; its size is not checked here")
